@@ -146,7 +146,7 @@ public:
         WaitAns a = D.wt.front(); D.wt.pop_front();
         uint64_t exp = timeout.expiration();
         bool inf = (exp == (uint64_t)-1);
-        uint64_t cur = D.now0 + D.virt;
+        uint64_t cur = photon::now;                        // == D.now0 + D.virt: virtual time is made visible to Timeout
         uint64_t rem = inf ? 0 : (exp > cur ? exp - cur : 0);
         int ans; int ret; int e = 0;
         if (a.k == 'n' && inf) { D.hang = true; errno = EBADF; return -1; }
@@ -158,6 +158,7 @@ public:
         if (inf) snprintf(b, sizeof b, "W%u,-1=%d;", interest, ans);
         else snprintf(b, sizeof b, "W%u,%" PRIu64 "=%d;", interest, rem, ans);
         D.log += b;
+        photon::now = D.now0 + D.virt;
         if (ret < 0) errno = e; else errno = photon::EOK;    // the real engine leaves EOK in errno after an event
         return ret;
     }
@@ -209,13 +210,16 @@ static void run_D(const std::vector<std::string>& f) {
         else if (op == "sendfile") ret = s.sendfile(7, (off_t)lens[0], lens[1]);
         err = errno;
         D.active = false;
+        photon::now = D.now0;
         s.fd = -1;                                         // do not shutdown()/close() the fake descriptor
     }
     if (D.hang) { puts("HANG"); return; }
     if (D.exhausted) { puts("SCRIPTEND"); return; }
     std::string data;
     bool guard = true, kept = true;
-    if (!sending && op != "sendfile") {
+    if (op == "sendfile") {
+        for (size_t a = 0; a < STRIDE * NBUF; a++) if (arena[a] != FILL) guard = false;
+    } else if (!sending) {
         for (size_t i = 0; i < lens.size(); i++) {
             if (i) data += "/";
             size_t n = lens[i];
